@@ -688,6 +688,8 @@ class Exec:
         return IntV(I(v), parse_type(n['type']))
 
     def global_lv(self, st, q, rd):
+        if q not in models.GLOBAL_ALIAS and ('vfps::PhaseSpace::' + str(q)) in models.GLOBAL_ALIAS:
+            q = 'vfps::PhaseSpace::' + q        # dump without class context (main): PhaseSpace::nx and friends
         q = models.GLOBAL_ALIAS.get(q, q)
         ct = parse_type(rd.get('type'))
         if q in ('abort', 'vfps::Display::abort') and not getattr(self, 'plain_abort', False):
@@ -1453,6 +1455,12 @@ class Exec:
                 fs = tu.funcs.get(c, [])
                 if len(fs) == 1:
                     return fs[0], tu
+                if len(fs) == 2 and objn is not None:
+                    # const / non-const overload pair of an accessor: pick by the constness of the object expression
+                    isconst = (objn.get('type', {}).get('qualType', '')).lstrip().startswith('const')
+                    pick = [f_ for f_ in fs if f_.get('type', {}).get('qualType', '').rstrip().endswith('const') == isconst]
+                    if len(pick) == 1:
+                        return pick[0], tu
         return None, None
 
     def inline(self, fdecl, n, st, objn, argn, q):
